@@ -25,5 +25,5 @@ func init() {
 
 var initBeforeUseExempt = map[string]string{
 	"internal/impl.(*MessageInfo).lazyUnmarshal": "its only init-less entry is Export.UnmarshalField, called by generated getters when a field is present but still lazy: such a message was filled by this MessageInfo's own unmarshal (which ran init()), and handing the message to another goroutine orders that init before this read",
-	"internal/impl.IsLazy": "exported for tests only (doc comment): inspects an already populated message from the test goroutine; not part of the concurrent first-use surface",
+	"internal/impl.IsLazy":                       "exported for tests only (doc comment): inspects an already populated message from the test goroutine; not part of the concurrent first-use surface",
 }
